@@ -321,7 +321,9 @@ class SpecDB:
                 m = re.match(r'^\[([A-Za-z0-9_.-]+)\]\s*(.*)$', rest)
                 if m and head in ('requires', 'ensures', 'invariant', 'exits_iff'):
                     label = m.group(1); rest = m.group(2)
-                if head == 'define':
+                if head == 'source':
+                    self.cur_source = rest.strip()
+                elif head == 'define':
                     m = re.match(r'^([A-Za-z_][A-Za-z_0-9]*)\s*(\(([^)]*)\))?\s*=\s*(.*)$', rest)
                     if not m: raise SpecError('bad define')
                     ps = [p.strip() for p in (m.group(3) or '').split(',') if p.strip()]
@@ -338,6 +340,7 @@ class SpecDB:
                     self.specfns[m.group(1)] = SpecFn(m.group(1), ps, m.group(3), parse_expr(m.group(5)) if m.group(5) else None)
                 elif head == 'function':
                     ctx = FuncSpec(rest.split()[0]); ctx.file = path; loop = None
+                    ctx.source = getattr(self, 'cur_source', None)
                     self.funcs[ctx.key] = ctx
                 elif head == 'lemma':
                     m = re.match(r'^([A-Za-z_][A-Za-z_0-9]*)\s*\(([^)]*)\)$', rest)
